@@ -98,7 +98,7 @@ func (c Config) canon(path, s string) string {
 	return s
 }
 
-var exts = []string{".json", ".obj", ".v1.dat"}
+var exts = []string{".json", ".obj", ".v1.dat", ".gz", ".data.gz"} // the last two: a name ending like compressed files, compressed or not
 
 type GenOpts struct {
 	ForceSync   bool
